@@ -105,7 +105,7 @@ theorem BSpec.getTags {E} (items : List (Key × Val)) : BSpec (getTags items) (f
   · exact BSpec.pure _ trivial
   · exact BSpec.crash _
 
-theorem mem_getTokens {items : List (Key × Val)} {k : Kind} {t : Token} (h : t ∈ getTokens items k) :
+theorem gmem_getTokens {items : List (Key × Val)} {k : Kind} {t : Token} (h : t ∈ getTokens items k) :
     (Key.tok k, Val.tok t) ∈ items := by
   unfold getTokens getItems at h
   obtain ⟨v, hv, hvt⟩ := List.mem_filterMap.1 h
@@ -134,7 +134,7 @@ theorem BSpec.getTableRows (items : List (Key × Val)) :
         · cases hr
         · exact List.mem_of_find?_eq_some hr
       obtain ⟨t, ht, hloc⟩ := hrows r hmem
-      exact ⟨t, mem_getTokens ht, by dsimp only; rw [hloc]; rfl⟩
+      exact ⟨t, gmem_getTokens ht, by dsimp only; rw [hloc]; rfl⟩
     · exact BSpec.pure _ trivial
 
 theorem BSpec.mapM'_noast {α β} {E} (f : α → BM β) (l : List α)
